@@ -21,7 +21,11 @@ Theorem C11_one_invocation : forall is_alnum exec st (w : str) (r : list str),
       rest = [] /\
       eval_script exec st sc =
       match assoc_get w (i_cmds st) with
-      | None => (st, err (lit "invalid command name """ ++ w ++ lit """"))
+      | None =>
+          (st, Err (add_error_info
+                      (add_error_info (molt_err (lit "invalid command name """ ++ w ++ lit """"))
+                                      (lit "    while executing"))
+                      (lit """" ++ list_to_string (map as_str (map VStr (w :: r))) ++ lit """")))
       | Some cmd =>
           match exec st cmd (map VStr (w :: r)) with
           | (st2, Ok v) => (st2, Ok v)
